@@ -1,3 +1,440 @@
-import PrimitivModel.Model.KernelsMove
+import PrimitivModel.Lemmas.MoveSpec
+/-
+C02 — forward values equal the documented function, for the data-movement,
+reduction and selection kernels: for every well-formed operand shape (depth
+0..8, size-1 axes anywhere), every axis argument the entry point accepts (an
+axis at or beyond the depth is an axis of size 1; where the code rejects an
+axis ≥ 8 is part of each statement: `dim < 8` appears as a consequence of
+acceptance exactly for pick, sum, max, min, broadcast, concat, and not for
+slice, flip, argmax, argmin) and every minibatch combination, the result of the
+model's entry point, read through the column-major/minibatch-last layout
+(`Spec.Move.at4`), is the specification of Spec/KernelsMove.lean applied to
+the operands read the same way.  `L = lo s dim`, `U = up s dim` are the numbers
+of elements below and above the axis.
+-/
 namespace Primitiv.C02.Move
+open Primitiv Primitiv.Move Primitiv.MoveShape Primitiv.Spec.Move Primitiv.View3
+
+theorem cb_lt {U B c b : Nat} (hc : c < U) (hb : b < B) : c + U * b < U * B := lt_mul_of_lt hc hb
+
+/-- `slice(x, dim, lower, upper)`, any `dim` (also ≥ 8: then `lower = 0`, `upper = 1`) -/
+theorem Fwd.slice_spec {α} {x y : Tensor α} {dim lower upper : Nat} {raw : Nat → α} (hx : WF x.shape)
+    (h : sliceFw x dim lower upper raw = .ok y) :
+    lower < upper ∧ upper ≤ x.shape.get dim ∧ y.shape.batch = x.shape.batch ∧
+    (∀ i, y.shape.get i = if i = dim then upper - lower else x.shape.get i) ∧
+    ∀ a k c b, a < lo x.shape dim → k < upper - lower → c < up x.shape dim → b < x.shape.batch →
+      at4 (lo x.shape dim) (upper - lower) (up x.shape dim) y.data a k c b =
+        slice (at4 (lo x.shape dim) (x.shape.get dim) (up x.shape dim) x.data) lower a k c b := by
+  unfold sliceFw at h
+  obtain ⟨_, ys, m, hF, _, _, rfl⟩ := fw_inv h
+  obtain ⟨hl, hu, _, hb, hg, rfl, _, _⟩ := Front.sliceFw_plan hx hF
+  refine ⟨hl, hu, hb, hg, ?_⟩
+  intro a k c b ha hk hc hb'
+  simp only [at4_eq, slice]
+  rw [seqWrite_apply (fun _ => rfl), sliceFw_idx _ ha hk]
+  rw [sliceFw_count]
+  exact comp3_lt ha hk (cb_lt hc hb')
+
+/-- the outcome of an entry point as a list of values, for the examples -/
+def values {α} (r : R (Tensor α)) : Option (List Nat × Nat × List α) :=
+  match r with
+  | .ok y => some (y.shape.dims, y.shape.batch, (List.range y.shape.size).map y.data)
+  | .error _ => none
+
+example : values (sliceFw (α := Int) ⟨⟨[3, 2], 2, 6⟩, fun i => i, .here⟩ 0 1 3 (fun _ => 0)) =
+    some ([2, 2], 2, [1, 2, 4, 5, 7, 8, 10, 11]) := by decide
+
+/-- `flip(x, dim)`, any `dim` -/
+theorem Fwd.flip_spec {α} {x y : Tensor α} {dim : Nat} {raw : Nat → α} (hx : WF x.shape)
+    (h : flipFw x dim raw = .ok y) :
+    y.shape = x.shape ∧
+    ∀ a k c b, a < lo x.shape dim → k < x.shape.get dim → c < up x.shape dim → b < x.shape.batch →
+      at4 (lo x.shape dim) (x.shape.get dim) (up x.shape dim) y.data a k c b =
+        Spec.Move.flip (at4 (lo x.shape dim) (x.shape.get dim) (up x.shape dim) x.data) (x.shape.get dim) a k c b := by
+  unfold flipFw at h
+  obtain ⟨_, ys, m, hF, _, _, rfl⟩ := fw_inv h
+  obtain ⟨rfl, rfl, _⟩ := Front.flipFw_plan hx hF
+  refine ⟨rfl, ?_⟩
+  intro a k c b ha hk hc hb'
+  simp only [at4_eq, Spec.Move.flip]
+  have ⟨h1, h2, h3⟩ := flipStep_spec (L := lo x.shape dim) (n := x.shape.get dim) (R := up x.shape dim * x.shape.batch) ha hk (cb_lt hc hb')
+  have hw := (flip_writes (R := up x.shape dim * x.shape.batch) (hx.pos dim) (lo_pos hx dim)).2
+  rw [← h2, scatterSet_of_once hw _ _ h1, h3]
+  congr 2; omega
+
+/-- `broadcast(x, dim, size)`; `dim ≥ 8` is rejected -/
+theorem Fwd.broadcast_spec {α} {x y : Tensor α} {dim size : Nat} {raw : Nat → α} (hx : WF x.shape)
+    (h : broadcastFw x dim size raw = .ok y) :
+    dim < 8 ∧ x.shape.get dim = 1 ∧ 0 < size ∧ y.shape.batch = x.shape.batch ∧
+    (∀ i, y.shape.get i = if i = dim then size else x.shape.get i) ∧
+    ∀ a k c b, a < lo x.shape dim → k < size → c < up x.shape dim → b < x.shape.batch →
+      at4 (lo x.shape dim) size (up x.shape dim) y.data a k c b =
+        broadcast (at4 (lo x.shape dim) 1 (up x.shape dim) x.data) a k c b := by
+  unfold broadcastFw at h
+  obtain ⟨_, ys, m, hF, _, _, rfl⟩ := fw_inv h
+  obtain ⟨h8, h1, hs, _, hb, hg, rfl, _, _⟩ := Front.broadcastFw_plan hx hF
+  refine ⟨h8, h1, hs, hb, hg, ?_⟩
+  intro a k c b ha hk hc hb'
+  simp only [at4_eq, broadcast]
+  have ⟨s1, s2, s3⟩ := broadcast_step (L := lo x.shape dim) (size := size) (R := up x.shape dim * x.shape.batch) ha hk (cb_lt hc hb')
+  have hw := (broadcast_writes (R := up x.shape dim * x.shape.batch) hs (lo_pos hx dim)).2
+  rw [← s2, scatterSet_of_once hw _ _ s1, s3, comp3_one]
+
+/-- the common part of sum / max / min: the output shape, and element `(a, 0, c, b)`
+of the result is the loop over the elements `(a, k, c, b)`, `k < n` -/
+theorem reduce_view {α} {x y : Tensor α} {dim : Nat} {f : (Nat → α) → (Nat → Nat) → Nat → α}
+    (hx : WF x.shape)
+    (h : (do checkDevice x; let (ys, r) ← Front.reduceFw x.shape dim; runReduce r x ys f) = .ok y) :
+    dim < 8 ∧ y.shape.batch = x.shape.batch ∧ (∀ i, y.shape.get i = if i = dim then 1 else x.shape.get i) ∧
+    ∀ a c b, a < lo x.shape dim → c < up x.shape dim → b < x.shape.batch →
+      at4 (lo x.shape dim) 1 (up x.shape dim) y.data a 0 c b =
+        f x.data (fun k => comp3 (lo x.shape dim) (x.shape.get dim) a k (c + up x.shape dim * b)) (x.shape.get dim) := by
+  cases hc : checkDevice x with
+  | error e => simp [hc, bind, Except.bind] at h
+  | ok u =>
+    cases hF : Front.reduceFw x.shape dim with
+    | error e => simp [hc, hF, bind, Except.bind] at h
+    | ok p =>
+      obtain ⟨ys, r⟩ := p
+      simp only [hc, hF, bind, Except.bind] at h
+      obtain ⟨_, _, rfl⟩ := runReduce_inv h
+      obtain ⟨h8, _, hb, hg, rfl, _, _⟩ := Front.reduceFw_plan hx hF
+      refine ⟨h8, hb, hg, ?_⟩
+      intro a c b ha hc' hb'
+      simp only [at4_eq, comp3_one, axisReduce]
+      congr 1
+      funext k
+      rw [axisOff_eq_comp3]
+      have hL := lo_pos hx dim
+      rw [Nat.add_mul_mod_self_left, Nat.mod_eq_of_lt ha, Nat.add_mul_div_left _ _ hL, Nat.div_eq_of_lt ha]
+      simp
+
+/-- `sum(x, dim)`; `dim ≥ 8` is rejected -/
+theorem Fwd.sum_spec {α} [Add α] [Zero α] {x y : Tensor α} {dim : Nat} (hx : WF x.shape) (h : sumFw x dim = .ok y) :
+    dim < 8 ∧ y.shape.batch = x.shape.batch ∧ (∀ i, y.shape.get i = if i = dim then 1 else x.shape.get i) ∧
+    ∀ a c b, a < lo x.shape dim → c < up x.shape dim → b < x.shape.batch →
+      at4 (lo x.shape dim) 1 (up x.shape dim) y.data a 0 c b =
+        sum (at4 (lo x.shape dim) (x.shape.get dim) (up x.shape dim) x.data) (x.shape.get dim) a 0 c b := by
+  unfold sumFw at h
+  obtain ⟨h8, hb, hg, hv⟩ := reduce_view hx h
+  refine ⟨h8, hb, hg, fun a c b ha hc hb' => ?_⟩
+  rw [hv a c b ha hc hb', sumLoop_eq_sumN]; rfl
+
+/-- `max(x, dim)`; `dim ≥ 8` is rejected -/
+theorem Fwd.max_spec {α} [LinearOrder α] {x y : Tensor α} {dim : Nat} (hx : WF x.shape) (h : maxFw x dim = .ok y) :
+    dim < 8 ∧ y.shape.batch = x.shape.batch ∧ (∀ i, y.shape.get i = if i = dim then 1 else x.shape.get i) ∧
+    ∀ a c b, a < lo x.shape dim → c < up x.shape dim → b < x.shape.batch →
+      IsMax (fun k => at4 (lo x.shape dim) (x.shape.get dim) (up x.shape dim) x.data a k c b) (x.shape.get dim)
+        (at4 (lo x.shape dim) 1 (up x.shape dim) y.data a 0 c b) := by
+  unfold maxFw at h
+  obtain ⟨h8, hb, hg, hv⟩ := reduce_view hx h
+  refine ⟨h8, hb, hg, fun a c b ha hc hb' => ?_⟩
+  rw [hv a c b ha hc hb']
+  exact maxLoop_isMax x.data _ (hx.pos dim)
+
+/-- `min(x, dim)`; `dim ≥ 8` is rejected -/
+theorem Fwd.min_spec {α} [LinearOrder α] {x y : Tensor α} {dim : Nat} (hx : WF x.shape) (h : minFw x dim = .ok y) :
+    dim < 8 ∧ y.shape.batch = x.shape.batch ∧ (∀ i, y.shape.get i = if i = dim then 1 else x.shape.get i) ∧
+    ∀ a c b, a < lo x.shape dim → c < up x.shape dim → b < x.shape.batch →
+      IsMin (fun k => at4 (lo x.shape dim) (x.shape.get dim) (up x.shape dim) x.data a k c b) (x.shape.get dim)
+        (at4 (lo x.shape dim) 1 (up x.shape dim) y.data a 0 c b) := by
+  unfold minFw at h
+  obtain ⟨h8, hb, hg, hv⟩ := reduce_view hx h
+  refine ⟨h8, hb, hg, fun a c b ha hc hb' => ?_⟩
+  rw [hv a c b ha hc hb']
+  exact minLoop_isMin x.data _ (hx.pos dim)
+
+/-- `pick(x, ids, dim)`; `dim ≥ 8` is rejected; minibatch broadcasting between `x` and `ids` -/
+theorem Fwd.pick_spec {α} {x y : Tensor α} {ids : List Nat} {dim : Nat} {raw : Nat → α} (hx : WF x.shape)
+    (hlen : ids.length < W) (h : pickFw x ids dim raw = .ok y) :
+    dim < 8 ∧ 0 < ids.length ∧ (x.shape.batch = ids.length ∨ x.shape.batch = 1 ∨ ids.length = 1) ∧
+    (∀ i ∈ ids, i < x.shape.get dim) ∧ y.shape.batch = max x.shape.batch ids.length ∧
+    (∀ i, y.shape.get i = if i = dim then 1 else x.shape.get i) ∧
+    ∀ a c b, a < lo x.shape dim → c < up x.shape dim → b < max x.shape.batch ids.length →
+      at4 (lo x.shape dim) 1 (up x.shape dim) y.data a 0 c b =
+        pick (at4 (lo x.shape dim) (x.shape.get dim) (up x.shape dim) x.data) x.shape.batch ids a 0 c b := by
+  unfold pickFw at h
+  cases hc : checkDevice x with
+  | error e => simp [hc, bind, Except.bind] at h
+  | ok u =>
+    cases hF : Front.pickFw x.shape ids dim with
+    | error e => simp [hc, hF, bind, Except.bind] at h
+    | ok p =>
+      obtain ⟨ys, m⟩ := p
+      simp only [hc, hF, bind, Except.bind] at h
+      split at h
+      · cases h
+      · obtain ⟨_, _, rfl⟩ := runSet_inv h
+        obtain ⟨h8, hpos, hcomp, hids, _, hb, hg, rfl, _, _⟩ := Front.pickFw_plan hx hlen hF
+        refine ⟨h8, hpos, hcomp, hids, hb, hg, ?_⟩
+        intro a c b ha hc' hb'
+        simp only [at4, pick, share]
+        have e : a + lo x.shape dim * (0 + 1 * (c + up x.shape dim * b)) = a + lo x.shape dim * (c + up x.shape dim * b) := by ring
+        rw [e, seqWrite_apply (fun _ => rfl), pick_idx ids ha hc']
+        · have hi : b * b2n (ids.length > 1) = if ids.length = 1 then 0 else b := by
+            unfold b2n
+            by_cases h1 : ids.length = 1
+            · simp [h1]
+            · have : ids.length > 1 := by omega
+              simp [h1, this]
+          rw [hi]
+          unfold comp3
+          by_cases h1 : x.shape.batch = 1
+          · simp only [h1, if_true]; congr 1; ring
+          · simp only [h1, if_false]; congr 1; ring
+        · rw [pick_count]
+          have := comp3_lt (lo := lo x.shape dim) (n := 1) (hi := up x.shape dim * max x.shape.batch ids.length) (k := 0) ha (by omega) (cb_lt hc' hb')
+          unfold comp3 at this
+          calc a + lo x.shape dim * (c + up x.shape dim * b) = a + lo x.shape dim * (0 + 1 * (c + up x.shape dim * b)) := by ring
+            _ < lo x.shape dim * 1 * (up x.shape dim * max x.shape.batch ids.length) := this
+            _ = lo x.shape dim * up x.shape dim * max x.shape.batch ids.length := by ring
+
+example : values (pickFw (α := Int) ⟨⟨[3, 3], 1, 9⟩, fun i => i + 1, .here⟩ [1, 2] 1 (fun _ => 0)) =
+    some ([3], 2, [4, 5, 6, 7, 8, 9]) := by decide
+
+/-- `Tensor::argmax(dim)` for any `dim` (no axis is rejected): one position per
+`(a, c, b)`, in column-major order, the first one where the maximum is attained. -/
+theorem Fwd.argmax_spec {α} [LinearOrder α] {x : Tensor α} {dim : Nat} {l : List Nat} (hx : WF x.shape)
+    (h : argmax x dim = .ok l) :
+    l.length = lo x.shape dim * (up x.shape dim * x.shape.batch) ∧
+    ∀ a c b, a < lo x.shape dim → c < up x.shape dim → b < x.shape.batch →
+      IsArgmax (fun k => at4 (lo x.shape dim) (x.shape.get dim) (up x.shape dim) x.data a k c b) (x.shape.get dim)
+        (l.getD (a + lo x.shape dim * (c + up x.shape dim * b)) 0) := by
+  unfold argmax at h
+  cases hc : checkDevice x with
+  | error e => simp [hc, bind, Except.bind] at h
+  | ok u =>
+    simp only [hc, bind, Except.bind] at h
+    unfold argList at h
+    split at h
+    · cases h
+    · simp only [pure, Except.pure, Except.ok.injEq] at h
+      subst h
+      have ⟨hr, _⟩ := Front.argReduce_plan hx dim
+      rw [hr]
+      simp only [axisReduce, List.length_map, List.length_range, true_and]
+      intro a c b ha hc' hb'
+      have hlt : a + lo x.shape dim * (c + up x.shape dim * b) < lo x.shape dim * (up x.shape dim * x.shape.batch) :=
+        lt_mul_of_lt ha (cb_lt hc' hb')
+      have hL := lo_pos hx dim
+      have hn := hx.pos dim
+      rw [List.getD_eq_getElem?_getD, List.getElem?_map, List.getElem?_range hlt]
+      simp only [Option.map_some, Option.getD_some]
+      have := (argmaxLoop_spec x.data
+        (axisOff (lo x.shape dim) (lo x.shape dim * x.shape.get dim) (a + lo x.shape dim * (c + up x.shape dim * b)))
+        (x.shape.get dim - 1)).2
+      rw [show x.shape.get dim - 1 + 1 = x.shape.get dim by omega] at this
+      convert this using 2
+      rename_i k
+      rw [axisOff_eq_comp3, Nat.add_mul_mod_self_left, Nat.mod_eq_of_lt ha, Nat.add_mul_div_left _ _ hL, Nat.div_eq_of_lt ha]
+      simp [at4_eq]
+
+theorem Fwd.argmin_spec {α} [LinearOrder α] {x : Tensor α} {dim : Nat} {l : List Nat} (hx : WF x.shape)
+    (h : argmin x dim = .ok l) :
+    l.length = lo x.shape dim * (up x.shape dim * x.shape.batch) ∧
+    ∀ a c b, a < lo x.shape dim → c < up x.shape dim → b < x.shape.batch →
+      IsArgmin (fun k => at4 (lo x.shape dim) (x.shape.get dim) (up x.shape dim) x.data a k c b) (x.shape.get dim)
+        (l.getD (a + lo x.shape dim * (c + up x.shape dim * b)) 0) := by
+  unfold argmin at h
+  cases hc : checkDevice x with
+  | error e => simp [hc, bind, Except.bind] at h
+  | ok u =>
+    simp only [hc, bind, Except.bind] at h
+    unfold argList at h
+    split at h
+    · cases h
+    · simp only [pure, Except.pure, Except.ok.injEq] at h
+      subst h
+      have ⟨hr, _⟩ := Front.argReduce_plan hx dim
+      rw [hr]
+      simp only [axisReduce, List.length_map, List.length_range, true_and]
+      intro a c b ha hc' hb'
+      have hlt : a + lo x.shape dim * (c + up x.shape dim * b) < lo x.shape dim * (up x.shape dim * x.shape.batch) :=
+        lt_mul_of_lt ha (cb_lt hc' hb')
+      have hL := lo_pos hx dim
+      have hn := hx.pos dim
+      rw [List.getD_eq_getElem?_getD, List.getElem?_map, List.getElem?_range hlt]
+      simp only [Option.map_some, Option.getD_some]
+      have := (argminLoop_spec x.data
+        (axisOff (lo x.shape dim) (lo x.shape dim * x.shape.get dim) (a + lo x.shape dim * (c + up x.shape dim * b)))
+        (x.shape.get dim - 1)).2
+      rw [show x.shape.get dim - 1 + 1 = x.shape.get dim by omega] at this
+      convert this using 2
+      rename_i k
+      rw [axisOff_eq_comp3, Nat.add_mul_mod_self_left, Nat.mod_eq_of_lt ha, Nat.add_mul_div_left _ _ hL, Nat.div_eq_of_lt ha]
+      simp [at4_eq]
+
+example : argmax (α := Int) ⟨⟨[3, 2], 1, 6⟩, fun i => [1, 7, 3, 5, 4, 5].getD i 0, .here⟩ 0 = .ok [1, 0] := by decide
+
+/-- `transpose(x)`: matrices only -/
+theorem Fwd.transpose_spec {α} {x y : Tensor α} {raw : Nat → α} (hx : WF x.shape) (h : transposeFw x raw = .ok y) :
+    x.shape.isMatrix = true ∧ y.shape.batch = x.shape.batch ∧ y.shape.get 0 = x.shape.get 1 ∧
+    y.shape.get 1 = x.shape.get 0 ∧ (∀ i, 2 ≤ i → y.shape.get i = 1) ∧
+    ∀ i j b, i < x.shape.get 0 → j < x.shape.get 1 → b < x.shape.batch →
+      atM (x.shape.get 1) (x.shape.get 0) y.data j i b = transpose (atM (x.shape.get 0) (x.shape.get 1) x.data) j i b := by
+  unfold transposeFw at h
+  obtain ⟨_, ys, m, hF, _, _, rfl⟩ := fw_inv h
+  obtain ⟨hm, _, hb, g0, g1, g2, rfl, _, _⟩ := Front.transposeFw_plan hx hF
+  refine ⟨hm, hb, g0, g1, g2, ?_⟩
+  intro i j b hi hj hb'
+  simp only [atM, transpose]
+  have hw := (transpose_writes (bs := x.shape.batch) (hx.pos 0) (hx.pos 1)).2
+  rw [← transpose_didx x.shape.batch hi hj, scatterSet_of_once hw]
+  · rfl
+  · simp only [transposeMoves]
+    have := comp3_lt (lo := x.shape.get 0) (n := x.shape.get 1) (hi := x.shape.batch) hi hj hb'
+    unfold comp3 at this
+    calc _ < x.shape.get 0 * x.shape.get 1 * x.shape.batch := this
+      _ = x.shape.batch * (x.shape.get 0 * x.shape.get 1) := by ring
+
+/-- `batch::pick(x, ids)` -/
+theorem Fwd.batch_pick_spec {α} {x y : Tensor α} {ids : List Nat} {raw : Nat → α} (hx : WF x.shape)
+    (hlen : ids.length < W) (h : batchPickFw x ids raw = .ok y) :
+    0 < ids.length ∧ (∀ i ∈ ids, i < x.shape.batch) ∧ y.shape.batch = ids.length ∧ y.shape.dims = x.shape.dims ∧
+    ∀ v b, v < x.shape.volume → b < ids.length →
+      at2 x.shape.volume y.data v b = batchPick (at2 x.shape.volume x.data) ids v b := by
+  unfold batchPickFw at h
+  cases hc : checkDevice x with
+  | error e => simp [hc, bind, Except.bind] at h
+  | ok u =>
+    cases hF : Front.batchPickFw x.shape ids with
+    | error e => simp [hc, hF, bind, Except.bind] at h
+    | ok p =>
+      obtain ⟨ys, m⟩ := p
+      simp only [hc, hF, bind, Except.bind] at h
+      split at h
+      · cases h
+      · obtain ⟨_, _, rfl⟩ := runSet_inv h
+        obtain ⟨hpos, hids, _, hb, hd, rfl, _, _⟩ := Front.batchPickFw_plan hx hlen hF
+        refine ⟨hpos, hids, hb, hd, ?_⟩
+        intro v b hv hb'
+        simp only [at2, batchPick]
+        have hcnt : v + x.shape.volume * b < (batchPickMoves ids.length x.shape.volume ids).count := by
+          simp only [batchPickMoves]
+          have := lt_mul_of_lt hv hb'
+          rw [Nat.mul_comm ids.length]; exact this
+        rw [seqWrite_apply (m := batchPickMoves ids.length x.shape.volume ids) (fun _ => rfl) _ _ hcnt]
+        simp only [batchPickMoves]
+        have hV : 0 < x.shape.volume := by omega
+        rw [Nat.add_mul_mod_self_left, Nat.mod_eq_of_lt hv, Nat.add_mul_div_left _ _ hV, Nat.div_eq_of_lt hv]
+        congr 1
+        rw [Nat.zero_add]; ring
+
+/-- `batch::slice(x, lower, upper)` -/
+theorem Fwd.batch_slice_spec {α} {x y : Tensor α} {lower upper : Nat} {raw : Nat → α} (hx : WF x.shape)
+    (h : batchSliceFw x lower upper raw = .ok y) :
+    lower < upper ∧ upper ≤ x.shape.batch ∧ y.shape.batch = upper - lower ∧ y.shape.dims = x.shape.dims ∧
+    ∀ v b, v < x.shape.volume → b < upper - lower →
+      at2 x.shape.volume y.data v b = batchSlice (at2 x.shape.volume x.data) lower v b := by
+  unfold batchSliceFw at h
+  obtain ⟨_, ys, m, hF, _, _, rfl⟩ := fw_inv h
+  obtain ⟨hl, hu, _, hb, hd, rfl, _, _⟩ := Front.batchSliceFw_plan hx hF
+  refine ⟨hl, hu, hb, hd, ?_⟩
+  intro v b hv hb'
+  simp only [at2, batchSlice]
+  rw [seqWrite_apply (fun _ => rfl)]
+  · simp only [batchSliceFwMoves]; congr 1; ring
+  · simp only [batchSliceFwMoves]; exact lt_mul_of_lt hv hb'
+
+/-- `batch::sum(x)` -/
+theorem Fwd.batch_sum_spec {α} [Add α] [Zero α] {x y : Tensor α} (hx : WF x.shape) (h : batchSumFw x = .ok y) :
+    y.shape.batch = 1 ∧ y.shape.dims = x.shape.dims ∧
+    ∀ v, v < x.shape.volume →
+      at2 x.shape.volume y.data v 0 = batchSum (at2 x.shape.volume x.data) x.shape.batch v 0 := by
+  unfold batchSumFw at h
+  cases hc : checkDevice x with
+  | error e => simp [hc, bind, Except.bind] at h
+  | ok u =>
+    cases hF : Front.batchSumFw x.shape with
+    | error e => simp [hc, hF, bind, Except.bind] at h
+    | ok p =>
+      obtain ⟨ys, r⟩ := p
+      simp only [hc, hF, bind, Except.bind] at h
+      obtain ⟨_, _, rfl⟩ := runReduce_inv h
+      obtain ⟨_, hb, hd, rfl, _, _⟩ := Front.batchSumFw_plan hx hF
+      refine ⟨hb, hd, ?_⟩
+      intro v hv
+      simp only [at2, batchSum, batchSumReduce, Nat.mul_zero, Nat.add_zero]
+      rw [sumLoop_eq_sumN]
+      congr 1; funext b; congr 1; ring
+
+/-- `copy(x)` / `Device::copy_tensor`, also for a tensor of another device -/
+theorem Fwd.copy_spec {α} {x y : Tensor α} {raw : Nat → α} (h : copyTensor x raw = .ok y) :
+    x.loc ≠ .invalid ∧ y.shape = x.shape ∧ ∀ i, i < x.shape.size → y.data i = x.data i := by
+  unfold copyTensor at h
+  split at h
+  · cases h
+  · rename_i hl
+    obtain ⟨_, _, rfl⟩ := runSet_inv h
+    exact ⟨hl, rfl, fun i hi => seqWrite_apply (m := copyMoves x.shape.size) (fun _ => rfl) _ _ hi⟩
+
+/-- `identity(size)` -/
+theorem Fwd.identity_spec {α} {zero one : α} {size : Nat} {y : Tensor α} (h : Move.identity zero one size = .ok y) :
+    0 < size ∧ y.shape.batch = 1 ∧ y.shape.get 0 = size ∧ y.shape.get 1 = size ∧
+    ∀ i j, i < size → j < size → y.data (i + size * j) = Spec.Move.identity zero one i j := by
+  unfold Move.identity at h
+  cases hF : Front.identity size with
+  | error e => simp [hF, bind, Except.bind] at h
+  | ok ys =>
+    simp only [hF, bind, Except.bind] at h
+    split at h
+    · cases h
+    · simp only [pure, Except.pure, Except.ok.injEq] at h
+      subst h
+      unfold Front.identity at hF
+      split at hF
+      · cases hF
+      · rename_i h0
+        have ⟨_, hb, hg, _, _⟩ := new_ok hF
+        refine ⟨by omega, hb, by rw [hg]; rfl, by rw [hg]; rfl, ?_⟩
+        intro i j hi hj
+        simp only [Spec.Move.identity]
+        by_cases e : i = j
+        · subst e
+          rw [if_pos rfl]
+          have : i + size * i = (fun t => t * (size + 1)) i := by show _ = i * (size + 1); ring
+          rw [this, scatterSet_at _ _ _ _ _ _ hi]
+          intro t' h1 h2 e
+          have : t' * (size + 1) = i * (size + 1) := e
+          have := Nat.eq_of_mul_eq_mul_right (by omega : 0 < size + 1) this
+          omega
+        · rw [if_neg e, scatterSet_untouched]
+          intro t ht e'
+          have e1 : t * (size + 1) = comp3 size 1 t 0 t := by unfold comp3; ring
+          have e2 : i + size * j = comp3 size 1 i 0 j := by unfold comp3; ring
+          rw [e1, e2] at e'
+          have ⟨a, _, c⟩ := comp3_inj ht (by omega) hi (by omega) e'
+          omega
+
+/-- creation and refill: `new_tensor_by_constant`, `reset_tensor`,
+`new_tensor_by_array/vector`, `reset_tensor_by_array/vector`, `to_vector` -/
+theorem Fwd.constant_spec {α} (s : Shape) (k : α) : ∃ y, newConstant s k = .ok y ∧ y.shape = s ∧ ∀ i, y.data i = k :=
+  ⟨_, rfl, rfl, fun _ => rfl⟩
+
+theorem Fwd.reset_by_vector_spec {α} {values : List α} {dflt : α} {x y : Tensor α} {raw : Nat → α}
+    (h : resetByVector values dflt x raw = .ok y) :
+    x.loc = .here ∧ values.length = x.shape.size ∧ y.shape = x.shape ∧
+    ∀ i, i < x.shape.size → y.data i = values.getD i dflt := by
+  unfold resetByVector at h
+  cases hc : checkDevice x with
+  | error e => simp [hc, bind, Except.bind] at h
+  | ok u =>
+    simp only [hc, bind, Except.bind] at h
+    split at h
+    · cases h
+    · rename_i hl
+      obtain ⟨_, _, rfl⟩ := runSet_inv h
+      exact ⟨checkDevice_inv hc, by omega, rfl,
+        fun i hi => seqWrite_apply (m := copyMoves x.shape.size) (fun _ => rfl) _ _ hi⟩
+
+theorem Fwd.to_vector_spec {α} {x : Tensor α} {l : List α} (h : toVector x = .ok l) :
+    x.loc = .here ∧ l.length = x.shape.size ∧ ∀ i, i < x.shape.size → l[i]? = some (x.data i) := by
+  unfold toVector at h
+  cases hc : checkDevice x with
+  | error e => simp [hc, bind, Except.bind] at h
+  | ok u =>
+    simp only [hc, bind, Except.bind, pure, Except.pure, Except.ok.injEq] at h
+    subst h
+    exact ⟨checkDevice_inv hc, by simp, fun i hi => by simp [hi]⟩
+
 end Primitiv.C02.Move
